@@ -196,6 +196,9 @@ func (e *c13Env) peerIdx(p peer.ID) int64 {
 			return int64(i)
 		}
 	}
+	if p == c13Local.id {
+		return int64(e.np + 1)
+	}
 	return 99
 }
 func (e *c13Env) keyNum(k ic.PubKey) int64 {
@@ -224,7 +227,7 @@ func (e *c13Env) describeAddr(a ma.Multiaddr) []int64 {
 	return []int64{id, c13Class(a), sfx}
 }
 
-func c13NewEnv(np int, kinds []int64, maxProtos int, timeout time.Duration, conns [][4]int64) *c13Env {
+func c13NewEnv(np int, kinds []int64, maxProtos, pcap int, timeout time.Duration, conns [][4]int64) *c13Env {
 	c13Keys()
 	e := &c13Env{np: np, gates: map[int64]*c13Gate{}, taskOf: map[int64]int64{}}
 	e.peers = make([]c13Key, np+1)
@@ -238,7 +241,7 @@ func c13NewEnv(np int, kinds []int64, maxProtos int, timeout time.Duration, conn
 			nr++
 		}
 	}
-	raw, err := pstoremem.NewPeerstore(pstoremem.WithMaxProtocols(maxProtos))
+	raw, err := pstoremem.NewPeerstore(pstoremem.WithMaxProtocols(maxProtos), pstoremem.WithMaxAddressesPerPeer(pcap))
 	if err != nil {
 		panic(err)
 	}
